@@ -1550,6 +1550,54 @@ fn gcdbez(rng: &mut Rng, iters: u64) {
     }
 }
 
+// ---- known findings F19 / F20 / F21: the specific failing inputs (reported by sub-agents probing the pristine tree, confirmed)
+/// F19: P+1 stage 2 takes the giant steps i d1 for i < d2 only, so it covers l <= (d2 - 1) d1 + d1/2, below the B2 it reports
+fn f19() {
+    use std::str::FromStr;
+    let q128 = Uint::from_str("192361420203955321314102766284003105319").unwrap();
+    // p + 1 = 2^3 * 17 * 223 * 32999, (5^2 - 4 | p) = -1; row (33e3, 510, 64) covers l <= 32385
+    let p = Uint::from(1000793671u64);
+    let n = p * q128;
+    match catch_unwind(AssertUnwindSafe(|| yamaquasi::pp1::pp1(n, 5, 1500, 33e3, yamaquasi::Verbosity::Silent))) {
+        Err(_) => fail("f19", format!("pp1({n}, 5, 1500, 33e3): panic")),
+        Ok(None) => fail("f19", "pp1(1000793671 * q128, seed 5, B1 1500, B2 33e3) = None although p + 1 = 2^3 * 17 * 223 * 32999 and 32999 <= 33000 (the reported B2); B2 = 53e3 finds p".to_string()),
+        Ok(Some(_)) => {}
+    }
+}
+
+/// F20: the polynomial-evaluation stage 2 of P-1 covers l < (d2 - 2 - phi(d1)) d1, below the B2 of about half of the rows
+fn f20() {
+    use std::str::FromStr;
+    let p256 = Uint::from_str("92504863121296400653652753711376140294298584431452956354291724864471735145079").unwrap();
+    // p - 1 = 2 * 3^6 * 7 * 979987; row 980e3 covers l < 978180
+    let p = Uint::from(10001747323u64);
+    let n = p * p256;
+    match catch_unwind(AssertUnwindSafe(|| yamaquasi::pollard_pm1::pm1_impl(&n, 1000, 980e3, yamaquasi::Verbosity::Silent))) {
+        Err(_) => fail("f20", format!("pm1_impl({n}, 1000, 980e3): panic")),
+        Ok(None) => fail("f20", "pm1_impl(10001747323 * p256, B1 1000, B2 980e3) = None although p - 1 = 2 * 3^6 * 7 * 979987 and 979987 <= 980000 (the reported B2); B2 = 1.9e6 finds p".to_string()),
+        Ok(Some(_)) => {}
+    }
+}
+
+/// F21: convolve_modn does not wrap around X^size - 1 when several coefficients are packed per transform word
+fn f21() {
+    use yamaquasi::arith_fft::convolve_modn;
+    use yamaquasi::arith_montgomery::{MInt, ZmodN};
+    let n = (Uint::ONE << 61) - Uint::ONE;
+    let zn = ZmodN::new(n);
+    let size = 2usize;
+    let p: Vec<MInt> = [3u64, 4].iter().map(|&x| zn.from_int(Uint::from(x))).collect();
+    let q: Vec<MInt> = [7u64, 9].iter().map(|&x| zn.from_int(Uint::from(x))).collect();
+    let mut res = vec![MInt::default(); size];
+    if catch_unwind(AssertUnwindSafe(|| convolve_modn(&zn, size, &p, &q, &mut res, 0))).is_err() {
+        fail("f21", "convolve_modn(n = 2^61 - 1, size 2, [3, 4], [7, 9]): panic".to_string());
+    }
+    let got: Vec<u64> = res.iter().map(|&r| zn.to_int(r).digits()[0]).collect();
+    if got != vec![57, 55] {
+        fail("f21", format!("convolve_modn(n = 2^61 - 1, size 2, p = [3, 4], q = [7, 9], offset 0) = {got:?}, the cyclic convolution modulo X^2 - 1 is [57, 55]"));
+    }
+}
+
 pub fn run(case: &str, rng: &mut Rng, iters: u64) -> bool {
     match case {
         "gcdbez" => gcdbez(rng, iters),
@@ -1568,6 +1616,9 @@ pub fn run(case: &str, rng: &mut Rng, iters: u64) -> bool {
         "factorapi" => factorapi(rng, iters),
         "rhofail" => rhofail(rng, iters),
         "gcdfactors" => gcdfactors(rng, iters),
+        "f19" => f19(),
+        "f20" => f20(),
+        "f21" => f21(),
         "f12" => f12(),
         "f4" => f4(),
         "f3" => f3(),
